@@ -22,8 +22,8 @@ CONSTANTS MaxKeyLevels, MaxItems, MaxTotal, ItemMax, MaxEvals, MaxDepth,
 NoLimit == 99
 
 Leaves(nk) ==
-  {LeafL("list", "", vf) : vf \in VFs \ {"inner", "list2"}}
-  \cup {LeafL("last", "", vf) : vf \in (VFs \ {"skip3", "inc", "inner", "list2"}) \cup (IF nk > 0 THEN VFs \cap {"skip3"} ELSE {})}
+  {LeafL("list", "", vf) : vf \in VFs \ {"inner", "list2", "cats", "catt"}}
+  \cup {LeafL("last", "", vf) : vf \in (VFs \ {"skip3", "inc", "inner", "list2", "cats", "catt"}) \cup (IF nk > 0 THEN VFs \cap {"skip3"} ELSE {})}
   \cup {LeafL("agg", a, "ident") : a \in Aggs \ {"Flatten", "Merge"}}
   \cup {LeafL("agg", "Sum", "inc") : a \in Aggs \cap {"Sum"}}
   \cup {LeafL("agg", "Flatten", "pair") : a \in Aggs \cap {"Flatten"}}
@@ -33,6 +33,8 @@ Leaves(nk) ==
   \cup {LeafL("agg", "Flatten", "gcount") : a \in Aggs \cap {"Flatten"}, v \in VFs \cap {"inner"}}
   \cup {LeafL("agg", "Merge", "gbsum") : a \in Aggs \cap {"Merge"}, v \in VFs \cap {"inner"}}
   \cup {SampleL(n) : n \in SampleNs}
+  \* "cats" / "catt" \in VFs: Sum(init=str) over words / Sum(init=tuple) over pairs
+  \cup {LeafL("agg", "Sum", v) : v \in VFs \cap {"cats", "catt"}}
   \* "list2" \in VFs: the list spec with two value specs [val, T * 10]
   \cup {LeafL("list2", "", vf) : vf \in {"ident", "inc"}, v \in VFs \cap {"list2"}}
 
@@ -47,6 +49,7 @@ OrdSafe(sp) ==
   /\ LET L == sp[Len(sp)] IN
      \/ L.op \in {"list", "last"} /\ L.val = "ident"
      \/ L.op = "agg" /\ L.agg \in {"First", "Max", "Min", "Count", "Sample"}
+     \/ L.op = "agg" /\ L.agg = "Sum" /\ L.val = (IF ItemKind = "str" THEN "cats" ELSE "catt")
 \* objects with a hostile __eq__ are only routed (by t % 2, t // 2, a constant), collected and counted
 HostileSafe(sp) ==
   /\ \A l \in 1..Len(sp) : sp[l].op = "dict" => sp[l].key \in {"mod2", "half", "const"}
